@@ -238,9 +238,19 @@ def _build_aspire_resume(gid, p):
                         blob = f["checkpoint"]["state"][...].tobytes()
             except Exception:
                 blob = None
+            implicit = bool(p.get("implicit_ckpt"))
+            if blob is None and implicit:
+                # interrupted before its first checkpoint: the file holds the configuration and the proposal
+                # only; the rebuilt instance starts over and keeps checkpointing to the same file
+                c3 = dict(cfg); c3["path"] = c2["path"]; c3["every"] = None; c3["implicit_ckpt"] = True
+                res = smcdrv.run_aspire(c3, ids=ids, role="restart", resume_file=c2["path"])
+                res["resumed"] = False
+                runs.append(res)
             if blob is not None:
                 c3 = dict(cfg); c3["path"] = c2["path"]
-                if p.get("every_resume"):
+                if implicit:
+                    c3["every"] = None; c3["implicit_ckpt"] = True
+                elif p.get("every_resume"):
                     c3["every"] = p["every_resume"]
                 try:
                     state = pickle.loads(blob)
@@ -768,7 +778,9 @@ def corpus_file(tier, seed, rnd):
             ks = sorted(rnd.sample(ks, lim))
         for fk in ks:
             pp = {"cfg": c, "fault_k": fk, "fault_on": "like"}
-            if rnd.random() < 0.4:
+            if (k + fk) % 3 == 0:
+                pp["implicit_ckpt"] = True
+            elif rnd.random() < 0.4:
                 pp["every_resume"] = rnd.choice([1, 2, 3])
             specs.append(_mk(k, "aspire_resume", pp)); k += 1
         kps = sorted(rnd.sample(range(1, nprior + 1), min(nprior, 3 if tier == "quick" else 10)))
